@@ -74,24 +74,25 @@ Lemma invoke_inv : forall i rest m, nth_error es i = Some m ->
   match r with
   | None => True
   | Some (None, e) => e = ENil /\ pdb (ms_p st') = spec i (pdb (ms_p st'))
-  | Some (Some t, e) => e = ENil /\ good i (pdb (ms_p st')) (Some t)
+  | Some (Some t, e) => e = ENil /\ good i (pdb (ms_p st')) (Some t) /\ cancelled (ms_clk st') = true
   end.
 Proof.
   intros i rest m Hm. induction f; intros st tok st' r Hp HI HT Hg H; simpl in H.
-  - inversion H; subst. repeat split; auto.
+  - inversion H; subst. refine (conj _ (conj _ (conj _ (conj _ _)))); auto.
   - destruct (mig_step m (pdb (ms_p st)) tok (cancelled (ms_clk st))) as [db' o] eqn:Es.
     pose proof (step_ok i m Hm _ _ _ _ _ Hg Es) as [S1 [S2 S3]].
     assert (HI' : Inv (with_db db' (ms_p st))).
     { destruct HI as [I1 I2]. unfold Inv, pending in *. simpl. rewrite Hp in *. simpl in *.
       rewrite S1. split; auto. destruct I2 as [I2 I3]. split; auto. }
-    destruct (cancelled (ms_clk st)).
-    + inversion H; subst; clear H. simpl. repeat split; auto.
+    destruct (cancelled (ms_clk st)) eqn:Ec.
+    + inversion H; subst; clear H. simpl. refine (conj _ (conj _ (conj _ (conj _ _)))); auto.
       * intros p [Hq|Hq]; subst; auto.
-      * destruct o; try contradiction; split; auto. rewrite S3 at 2. rewrite S1. auto.
+      * destruct o; try contradiction; [split|split;[|split]]; auto.
+        -- rewrite S1. exact S3.
+        -- destruct (ms_clk st) as [[|k]|]; simpl in *; try discriminate; auto.
     + destruct o; try contradiction.
-      * inversion H; subst; clear H. simpl. repeat split; auto.
-        -- intros p [Hq|Hq]; subst; auto.
-        -- rewrite S3 at 2. rewrite S1. auto.
+      * inversion H; subst; clear H. simpl. refine (conj _ (conj _ (conj _ (conj _ _)))); auto;
+          try (intros p [Hq|Hq]; subst; auto); try (split; auto; rewrite S1; exact S3).
       * apply IHf in H; simpl; auto.
         intros p [Hq|Hq]; subst; auto.
 Qed.
@@ -106,36 +107,33 @@ Lemma run_pending_inv : forall pend (st st' : mstate) r,
 Proof.
   induction pend as [|i rest IH]; intros st st' r Hp HI HT H; simpl in H.
   - inversion H; subst. auto.
-  - destruct (cancelled (ms_clk st)). { inversion H; subst. repeat split; auto. discriminate. }
-    destruct (nth_error es i) as [m|] eqn:En. 2:{ inversion H; subst. repeat split; auto. discriminate. }
+  - destruct (cancelled (ms_clk st)). { inversion H; subst. refine (conj _ (conj _ _)); auto. discriminate. }
+    destruct (nth_error es i) as [m|] eqn:En. 2:{ inversion H; subst. refine (conj _ (conj _ _)); auto. discriminate. }
     destruct (invoke m i fuel (emit (EInvoke i (lookup (inter (ms_p st)) i)) st) (lookup (inter (ms_p st)) i))
       as [st1 r1] eqn:Ei.
     assert (Hg : good i (pdb (ms_p st)) (lookup (inter (ms_p st)) i)).
     { destruct HI as [_ I2]. rewrite Hp in I2. tauto. }
     eapply (invoke_inv i rest m En) in Ei; simpl; eauto.
     simpl in Ei. destruct Ei as [C1 [C2 [I1 [T1 Hr]]]].
-    destruct r1 as [[t' e]|]. 2:{ inversion H; subst. repeat split; auto. discriminate. }
+    destruct r1 as [[t' e]|]. 2:{ inversion H; subst. refine (conj _ (conj _ _)); auto. discriminate. }
     assert (Hp1 : pending (ms_p st1) = i :: rest) by (unfold pending in *; rewrite C1; auto).
     unfold after_migrate in H. destruct t' as [t|]; destruct Hr as [He Hr]; subst e.
     + (* resume token saved *)
+      destruct Hr as [Hr Hc].
       cbn [negb] in H. simpl in H.
       assert (I2 : Inv (save_inter i t (ms_p st1))).
       { destruct I1 as [A B]. unfold Inv, pending in *. simpl. rewrite Hp1 in *. split; auto.
-        split.
-        - rewrite lookup_set_key, Nat.eqb_refl. auto.
-        - intros j Hj. rewrite lookup_set_key. destruct (Nat.eqb_spec i j); subst; try contradiction.
-          apply B; auto. }
-      destruct (cancelled (tick (ms_clk st1))).
-      * inversion H; subst; simpl. repeat split; auto.
+        destruct B as [B1 B2]. split.
+        - rewrite Nat.eqb_refl. auto.
+        - intros j Hj. destruct (Nat.eqb_spec i j); [congruence|]. rewrite lookup_remove_key.
+          destruct (Nat.eqb_spec i j); [congruence|]. apply B2; auto. }
+      destruct (cancelled (tick (ms_clk st1))) eqn:Ect.
+      * inversion H; subst; simpl. refine (conj _ (conj _ _)); auto.
         -- intros p [Hq|Hq]; subst; auto.
         -- discriminate.
-      * (* (state, nil) with a live context cannot happen: invoke returns a token only when cancelled;
-           the invariant still holds, the remaining list is not the pending list any more *)
-        clear IH. revert H. generalize (emit (ESaved i t) (write (save_inter i t) st1)).
-        intros stx H.
-        (* this branch is unreachable: a Suspended return comes from the cancelled branch of invoke,
-           after which the clock is still at 0 *)
-        exfalso. revert H. clear. intros. exact (False_ind _ (unreachable_guard _ H)).
+      * (* (state, nil) with a live context cannot happen: a token is only returned from the
+           cancelled branch of invoke, and the clock stays at 0 *)
+        exfalso. destruct (ms_clk st1) as [[|k]|]; simpl in *; discriminate.
     + (* applied *)
       simpl in H.
       assert (I2 : Inv (apply_bit i (ms_p st1))).
@@ -157,4 +155,76 @@ Proof.
       * simpl. intros p [Hq|Hq]; subst; auto.
 Qed.
 
+Lemma run_boot_inv : forall c (s : pstate) st r, Inv s -> run_boot es fuel enabled c s = (st, r) ->
+  Inv (ms_p st) /\ (forall p, In p (ms_trace st) -> Inv p) /\ (r = ROk -> pending (ms_p st) = []).
+Proof.
+  intros c s st r HI H. unfold run_boot in H. fold T in H.
+  destruct (opt_out_attempt _ _ _).
+  { inversion H; subst; simpl. refine (conj _ (conj _ _)); auto. contradiction. discriminate. }
+  destruct (vcontains _ _); cbn [negb] in H.
+  2:{ inversion H; subst; simpl. refine (conj _ (conj _ _)); auto. contradiction. discriminate. }
+  assert (HI' : Inv (with_last T s)) by exact HI.
+  destruct (bits_of (vdiff T (cur s))) eqn:Eb.
+  - inversion H; subst; simpl. refine (conj _ (conj _ _)); auto.
+    intros p [Hq|[]]; subst; auto.
+  - eapply run_pending_inv in H; eauto.
+    simpl. intros p [Hq|[]]; subst; auto.
+Qed.
+
+Lemma boot_end_inv : forall (s : pstate) b, b_enabled b = enabled -> Inv s -> Inv (boot_end es fuel s b).
+Proof.
+  intros s b Hb HI. unfold boot_end. rewrite Hb.
+  destruct (run_boot es fuel enabled (b_cancel b) s) as [st r] eqn:E.
+  apply run_boot_inv in E; auto. destruct E as [I1 [I2 _]]. cbn [fst].
+  destruct (b_crash b) as [k|]; auto.
+  destruct (nth_in_or_default k (s :: rev (ms_trace st)) (ms_p st)) as [Hin|Hd].
+  - destruct Hin as [Hq|Hq]. { rewrite <- Hq. auto. }
+    apply I2. apply in_rev. auto.
+  - rewrite Hd. auto.
+Qed.
+
+Lemma run_schedule_inv : forall bs (s : pstate),
+  Forall (fun b => b_enabled b = enabled) bs -> Inv s -> Inv (run_schedule es fuel bs s).
+Proof.
+  induction bs as [|b bs IH]; intros s HF HI; simpl; auto.
+  inversion HF; subst. apply IH; auto. apply boot_end_inv; auto.
+Qed.
+
 End Resume.
+
+(* the statement, with every hypothesis explicit *)
+Lemma resume_same_db_lemma :
+  forall (DB Tok : Type) (es : list (@migration DB Tok)) (fuel : nat) (enabled : N)
+         (spec : nat -> DB -> DB) (good : nat -> DB -> option Tok -> Prop),
+  (forall i db, good i db None) ->
+  (forall i m, nth_error es i = Some m ->
+     forall db t c db' o, good i db t -> mig_step m db t c = (db', o) ->
+       spec i db' = spec i db /\ (forall s, good i db s -> good i db' s) /\
+       match o with
+       | Done => db' = spec i db
+       | Suspended t' => good i db' (Some t')
+       | _ => False
+       end) ->
+  forall (bs : list boot) (s0 : @pstate DB Tok) st_ref st_fin,
+  (forall j, lookup (inter s0) j = None) ->
+  Forall (fun b => b_enabled b = enabled) bs ->
+  run_boot es fuel enabled None s0 = (st_ref, ROk) ->
+  run_boot es fuel enabled None (run_schedule es fuel bs s0) = (st_fin, ROk) ->
+  pdb (ms_p st_fin) = pdb (ms_p st_ref) /\
+  pdb (ms_p st_ref) =
+    fold_left (fun d i => spec i d) (bits_of (vdiff (target_version es enabled) (cur s0))) (pdb s0) /\
+  bits_of (vdiff (target_version es enabled) (cur (ms_p st_fin))) = [] /\
+  bits_of (vdiff (target_version es enabled) (cur (ms_p st_ref))) = [].
+Proof.
+  intros DB Tok es fuel enabled spec good Hn Hs bs s0 st_ref st_fin Hi HF Href Hfin.
+  set (R := fold_left (fun d i => spec i d) (bits_of (vdiff (target_version es enabled) (cur s0))) (pdb s0)).
+  assert (I0 : Inv DB Tok es enabled spec good R s0).
+  { unfold Inv, pending, REF. split; auto.
+    destruct (bits_of _); auto. split; auto. rewrite Hi. apply Hn. }
+  pose proof (run_boot_inv DB Tok es fuel enabled spec good Hn Hs R None s0 st_ref ROk I0 Href) as [[A1 _] [_ A3]].
+  pose proof (run_schedule_inv DB Tok es fuel enabled spec good Hn Hs R bs s0 HF I0) as I1.
+  pose proof (run_boot_inv DB Tok es fuel enabled spec good Hn Hs R None _ st_fin ROk I1 Hfin) as [[B1 _] [_ B3]].
+  specialize (A3 eq_refl). specialize (B3 eq_refl). unfold pending in *.
+  unfold REF, pending in A1, B1. rewrite A3 in A1. rewrite B3 in B1. simpl in A1, B1.
+  refine (conj _ (conj _ (conj _ _))); auto. congruence.
+Qed.
